@@ -72,7 +72,7 @@ def value_for(t):
 
 @st.composite
 def cases_(draw):
-    n_res = draw(st.integers(1, 2))
+    n_res = draw(st.sampled_from([1, 1, 1, 2, 2, 2, 0]))      # (0: a package that has no resources at all)
     pkg = []
     for i in range(n_res):
         nf = draw(st.integers(1, 4))
@@ -148,6 +148,7 @@ def diagnose(a, b):
 def check(case, ctx):
     pkg, n_cp = case['pkg'], case['n_cp']
     desc = gen.descriptor_of(pkg)
+
     tables = gen.tables_of(pkg)
     total = sum(len(t) for t in tables)
     cp_root = ctx.tmpdir()
@@ -191,7 +192,13 @@ def check(case, ctx):
                             counts[0] += 1
                             yield r
                     yield it()
-        steps = [Src(desc, tables), counted(1)]
+        class Src0(dataflows.DataStreamProcessor):
+            # a flow without any source: the package never gets a 'resources' entry
+            def process_datapackage(self, dp):
+                counts[-1] += 1
+                dp.descriptor['name'] = 'no-resources'
+                return dp
+        steps = [Src(desc, tables) if pkg else Src0(), counted(1)]
         for j in range(1, n_cp + 1):
             steps.append(dataflows.checkpoint(cp_name(j), checkpoint_path=cp_root))
             steps.append(counted(j + 1))
